@@ -24,8 +24,12 @@ def rand_address(rng, mode=None):
     if mode in ('Mixed_11bits', 'Mixed_29bits'):
         a['address_extension'] = byte()
     if mode in ('NormalFixed_29bits', 'Mixed_29bits') and rng.random() < 0.5:
-        a['physical_id'] = rng.randint(0, 0x1FFFFFFF)
-        a['functional_id'] = rng.randint(0, 0x1FFFFFFF)
+        # custom identifier bases: both, or only one of them (the other keeps its standard value)
+        which = rng.choice(['both', 'both', 'physical', 'functional'])
+        if which in ('both', 'physical'):
+            a['physical_id'] = rng.randint(0, 0x1FFFFFFF)
+        if which in ('both', 'functional'):
+            a['functional_id'] = rng.randint(0, 0x1FFFFFFF)
     return a
 
 
